@@ -18,8 +18,9 @@ fn cell(idx: u64, rec: &mut Rec) {
     let policy = [RedirectAuthHeaders::Never, RedirectAuthHeaders::SameHost][take(2)];
     let body_kind = take(3); // 0 none, 1 content-length, 2 chunked
     let v10 = take(2) == 1;
-    // 0: plain; 1: Expect: 100-continue answered at once by this 3xx (body methods); 2: no Location field
-    let variant = take(3);
+    // 0: plain; 1: Expect: 100-continue answered at once by this 3xx (body methods); 2: no Location field;
+    // 3: an unsolicited 100 Continue in front of the 3xx
+    let variant = take(4);
     if v10 && !http10_method(method) {
         return;
     }
@@ -72,6 +73,10 @@ fn cell(idx: u64, rec: &mut Rec) {
         1 => stream.extend_from_slice(b"Content-Length: 3\r\n\r\nabc"),
         2 => stream.extend_from_slice(b"Transfer-Encoding: chunked\r\n\r\n3\r\nabc\r\n0\r\n\r\n"),
         _ => stream.extend_from_slice(b"\r\n"),
+    }
+    if variant == 3 {
+        stream.splice(0..0, b"HTTP/1.1 100 Continue\r\n\r\n".iter().copied());
+        rec.cov("after-unsolicited-100");
     }
     let total = stream.len();
     stream.extend_from_slice(b"HTTP/1.1 200 OK\r\n\r\n");
@@ -145,13 +150,13 @@ impl Property for P {
         "C15"
     }
     fn rule(&self) -> String {
-        "exhaustive table: 9 methods x status 300..=399 x 2 auth policies x response body {none, Content-Length, chunked} x request version {1.1, 1.0 where the method exists} x {plain, Expect: 100-continue refused by this very 3xx, no Location field}. Each cell runs a real exchange to the end and compares: redirect state entered <=> 3xx and not 304, Redirect.status() == status, as_new_flow outcome and new method == the table of the statement. class = (307/308 | other 3xx) x method x outcome.".into()
+        "exhaustive table: 9 methods x status 300..=399 x 2 auth policies x response body {none, Content-Length, chunked} x request version {1.1, 1.0 where the method exists} x {plain, Expect: 100-continue refused by this very 3xx, no Location field, an unsolicited 100 Continue first}. Each cell runs a real exchange to the end and compares: redirect state entered <=> 3xx and not 304, Redirect.status() == status, as_new_flow outcome and new method == the table of the statement. class = (307/308 | other 3xx) x method x outcome.".into()
     }
     fn assumptions(&self) -> Vec<String> {
         vec!["the table is restated from the property text in wire::redirect_method".into()]
     }
     fn workloads(&self, _tier: Tier) -> Vec<Workload> {
-        vec![Workload::new("table", 9 * 100 * 2 * 3 * 2 * 3, true, "full product; HTTP/1.0 cells for methods that do not exist in 1.0 are skipped")]
+        vec![Workload::new("table", 9 * 100 * 2 * 3 * 2 * 4, true, "full product; HTTP/1.0 cells for methods that do not exist in 1.0 are skipped")]
     }
     fn run_case(&self, _wl: &str, idx: u64, _seed: u64, rec: &mut Rec) {
         cell(idx, rec)
@@ -167,6 +172,7 @@ impl Property for P {
             ("304/cleanup".into(), 50),
             ("no-location/redirect-state-entered".into(), 500),
             ("expect-refused-by-3xx".into(), 500),
+            ("after-unsolicited-100".into(), 500),
         ]
     }
 }
